@@ -1,23 +1,31 @@
 /-
   C10 — every alternate-target result generates the relabelled target.
 
-  As for C02, what is proved is the soundness of the validator applied to every entry the real solver returns: an accepted entry's
+  As for C02, the soundness of the validator applied to every entry the real solver returns is proved: an accepted entry's
   circuit generates, under every combination of measurement outcomes, exactly the target graph state with its vertices renamed by the
-  entry's map.  Orbit membership of the listed graph and distinctness of the listed graphs are decided per output by the harness.
+  entry's map.  In addition the result assembly of `solve` is modelled (Model/AltTarget.lean) and proved:
+    * the duplicate removal (`set_list`, `redundant_indices`, deletion from the back) keeps entries with pairwise different listed
+      graphs and loses no listed graph — for every iteration order of the Python sets (`pick`);
+    * relabelling by a permutation is an isomorphism, relabelling composes, and the renamed adjacency used here is the matrix
+      `Pᵀ A P` of `relabel_module.relabel`;
+    * the outer loops with the time-reversed solver, the LC conversion and `get_relabel_map` as parameters: if those parts are
+      correct, every returned entry generates its relabelled target and the entries are pairwise different.
+  Orbit membership of the listed graph is decided per output by the harness (independent BFS); the explorers are C16.
 -/
 import GraphiqModel.Properties.C02
+import GraphiqModel.Proofs.AltTarget
+import GraphiqModel.Proofs.AltTargetLoop
 namespace Graphiq.C10
 open Graphiq Graphiq.PRow Graphiq.Tab Graphiq.STab
 
 /-- adjacency of the target with vertex `u` renamed to `perm[u]`: edge `(a, b)` iff some edge `(u, v)` has `perm u = a`, `perm v = b` -/
 def relabelAdj (n : Nat) (adj : Nat → Nat → Bool) (perm : List Nat) : Nat → Nat → Bool :=
-  fun a b => (List.range n).any fun u => (List.range n).any fun v =>
-    perm.getD u n == a && perm.getD v n == b && adj u v
+  Alt.relabelAdj n adj perm
 
 /-- the renamed graph has edge `(perm u, perm v)` whenever the target has `(u, v)` -/
 theorem relabel_edge (n : Nat) (adj : Nat → Nat → Bool) (perm : List Nat) (u v : Nat) (hu : u < n) (hv : v < n)
     (h : adj u v = true) : relabelAdj n adj perm (perm.getD u n) (perm.getD v n) = true := by
-  unfold relabelAdj
+  unfold relabelAdj Alt.relabelAdj
   simp only [List.any_eq_true, List.mem_range, Bool.and_eq_true, beq_iff_eq]
   exact ⟨u, hu, v, hv, ⟨rfl, rfl⟩, h⟩
 
@@ -28,7 +36,7 @@ theorem relabel_edge_iff (n : Nat) (adj : Nat → Nat → Bool) (perm : List Nat
   cases h : adj u v with
   | true => exact relabel_edge n adj perm u v hu hv h
   | false =>
-    unfold relabelAdj
+    unfold relabelAdj Alt.relabelAdj
     apply Bool.eq_false_iff.mpr
     intro hc
     simp only [List.any_eq_true, List.mem_range, Bool.and_eq_true, beq_iff_eq] at hc
@@ -48,6 +56,136 @@ theorem entry_validator_sound (ne np : Nat) (ops : List COp) (adj : Nat → Nat 
   intro script hl
   obtain ⟨s, hs, _, hiff⟩ := C02.validator_sound ne np ops (relabelAdj np adj perm) h script hl
   exact ⟨s, hs, hiff⟩
+
+/-! ### the duplicate removal of `solve` -/
+
+/-- **duplicate removal** (every list of keys — the listed adjacency matrices —, every entry list of the same length, every
+    `pick` that returns a member of its class, i.e. every iteration order of the Python sets): the result consists of entries of
+    the input, in their original order, at positions whose keys are pairwise different, and every key of the input is still the key
+    of a kept entry -/
+theorem dedup_keeps_one_per_key {κ α : Type} [DecidableEq κ] (pick : List Nat → Nat) (keys : List κ) (entries : List α)
+    (hlen : entries.length = keys.length) (hpick : ∀ s, s ∈ Alt.setList keys → pick s ∈ s) :
+    ∃ T : List (α × Nat), Alt.dedup pick keys entries = T.map Prod.fst ∧ T.Sublist entries.zipIdx ∧
+      (∀ x, x ∈ T → entries[x.2]? = some x.1) ∧
+      T.Pairwise (fun x y => keys[x.2]? ≠ keys[y.2]?) ∧
+      (∀ j, j < keys.length → ∃ x, x ∈ T ∧ keys[x.2]? = keys[j]?) :=
+  Alt.dedup_spec pick keys entries hlen hpick
+
+/-- the classes of `set_list` are never empty, so "the first element the set yields" (`list(s)[0]`) — or the smallest, or the
+    largest member — is a member: the hypothesis on `pick` is satisfiable for every key list -/
+theorem pick_head_is_member {κ : Type} [DecidableEq κ] (keys : List κ) :
+    ∀ s, s ∈ Alt.setList keys → s.headD 0 ∈ s := by
+  intro s hs
+  obtain ⟨⟨hds, e, _, _, _⟩, _⟩ := Alt.setList_inv keys
+  rw [e] at hs
+  obtain ⟨i, _, rfl⟩ := List.mem_map.mp hs
+  simp [Alt.classOf]
+
+/-- non-vacuity, with a `pick` that is NOT the smallest index (as CPython's `list({1, 8})[0] == 8`): five entries with keys
+    a b a c b; the classes are {0,2}, {1,4}, {3}; picking the last member keeps the entries 2, 3, 4 -/
+example : Alt.setList ["a", "b", "a", "c", "b"] = [[0, 2], [1, 4], [3]] := by decide
+example : Alt.dedup (fun s => s.getLastD 0) ["a", "b", "a", "c", "b"] [10, 11, 12, 13, 14] = [12, 13, 14] := by decide
+example : ∀ s, s ∈ Alt.setList ["a", "b", "a", "c", "b"] → (fun s : List Nat => s.getLastD 0) s ∈ s := by decide
+
+/-! ### relabelling -/
+
+/-- **relabelling by a permutation yields an isomorphic graph**: the permutation is an isomorphism from the graph to its renaming
+    (bijective on the vertices, `(u, v)` an edge iff `(p u, p v)` is; `isIsoMap` is the specification of C16) -/
+theorem relabel_is_isomorphism (n : Nat) (adj : Nat → Nat → Bool) (perm : List Nat) (hp : perm.Perm (List.range n)) :
+    isIsoMap n adj (relabelAdj n adj perm) perm = true :=
+  Alt.relabelAdj_iso n adj perm hp
+
+/-- **relabelling composes**: renaming by `p` and then by `q` is renaming by `u ↦ q[p[u]]` -/
+theorem relabel_composes (n : Nat) (adj : Nat → Nat → Bool) (p q : List Nat) (hp : ∀ u, u < n → p.getD u n < n) (a b : Nat) :
+    relabelAdj n (relabelAdj n adj p) q a b = relabelAdj n adj (Alt.compLabels n p q) a b :=
+  Alt.relabelAdj_comp n adj p q hp a b
+
+/-- for a permutation, the renamed adjacency used in this file is the matrix `relabel(adj, perm) = Pᵀ A P` of
+    `graphiq/utils/relabel_module.py` (model: GraphOps, C16) -/
+theorem relabel_is_relabel_module (n : Nat) (adj : Nat → Nat → Bool) (perm : List Nat) (hp : perm.Perm (List.range n))
+    (a b : Nat) (ha : a < n) (hb : b < n) :
+    decide (relabel n adj perm a b ≠ 0) = relabelAdj n adj perm a b :=
+  Alt.relabelAdj_eq_relabel n adj perm hp a b ha hb
+
+/-- non-vacuity: the cyclic shift and its square are permutations; composing the shift with itself -/
+example : [1, 2, 0].Perm (List.range 3) ∧ Alt.compLabels 3 [1, 2, 0] [1, 2, 0] = [2, 0, 1] := by decide
+
+/-! ### the outer loops of `solve`, the parts as parameters -/
+
+/-- **every returned entry generates its relabelled target, and the entries are pairwise different** (every number of photons,
+    target, list of relabelled targets, orbit explorer, `pick`), provided the parts the loops call are correct:
+    `hsolver` — the time-reversed solver's circuit generates the LC graph it was given; `hconv` — appending the conversion gates
+    of `lc_check` to a circuit that generates the LC graph gives a circuit that generates the relabelled target; `hmap` — the
+    relabel map renames the target into the relabelled target.  Also: nothing but duplicates is removed. -/
+theorem solve_result_correct (P : Alt.Parts) (pick : List Nat → Nat) (np : Nat) (target : Nat → Nat → Bool)
+    (out : List Alt.Entry)
+    (hsolver : ∀ iso lc ne ops, iso ∈ P.isoAdjs → lc ∈ P.lcGraphs iso → P.solver lc = some (ne, ops) →
+      Alt.Generates ne np ops lc.f)
+    (hconv : ∀ iso lc ne ops gates, iso ∈ P.isoAdjs → lc ∈ P.lcGraphs iso → P.conv lc iso = some gates →
+      Alt.Generates ne np ops lc.f → Alt.Generates ne np (ops ++ gates) iso.f)
+    (hshape : ∀ iso lc, iso ∈ P.isoAdjs → lc ∈ P.lcGraphs iso → lc.r = np ∧ lc.c = np)
+    (hmap : ∀ iso, iso ∈ P.isoAdjs → ∀ a b, a < np → b < np → iso.f a b = relabelAdj np target (P.relabelMap iso) a b)
+    (hpick : ∀ keys : List (List Bool), ∀ s, s ∈ Alt.setList keys → pick s ∈ s)
+    (h : Alt.solve P pick = .ok out) :
+    (∀ e, e ∈ out → ∀ script : List Bool, script.length = countMeas e.ops →
+      ∃ s, stabRun e.ne np .prob script e.ops = some s ∧
+        ∀ p, (STab.ofTab s.t).Spn p ↔ (targetSTab np e.ne (relabelAdj np target e.map)).Spn p) ∧
+    out.Pairwise (fun e e' => e.g.flat ≠ e'.g.flat) ∧
+    ∃ es, Alt.allEntries P = .ok es ∧ out.Sublist es ∧ ∀ e, e ∈ es → ∃ e', e' ∈ out ∧ e'.g.flat = e.g.flat := by
+  obtain ⟨h1, h2, h3⟩ := Alt.solve_spec P pick np target out hsolver hconv hshape hmap hpick h
+  refine ⟨fun e he script hl => ?_, h2, h3⟩
+  obtain ⟨s, hs, se⟩ := h1 e he script hl
+  exact ⟨s, hs, fun p => ⟨se.sub p, se.sup p⟩⟩
+
+/-- the same with the solver hypothesis in the form of `C02.solver_correct_statement` (which is a statement, not a theorem, of
+    C02: it needs a model of the time-reversed solver): if the time-reversed solver is correct for every simple graph, the LC
+    graphs are simple, and conversion and maps are correct, then every entry generates its relabelled target and the entries
+    are pairwise different -/
+theorem solve_correct_if_solver_correct (tsolve : (np : Nat) → (Nat → Nat → Bool) → Option (Nat × List COp))
+    (hsol : C02.solver_correct_statement tsolve) (P : Alt.Parts) (pick : List Nat → Nat) (np : Nat)
+    (target : Nat → Nat → Bool) (out : List Alt.Entry)
+    (huse : ∀ lc, P.solver lc = tsolve np lc.f)
+    (hsimple : ∀ iso lc, iso ∈ P.isoAdjs → lc ∈ P.lcGraphs iso →
+      (∀ i j, lc.f i j = lc.f j i) ∧ (∀ i, lc.f i i = false) ∧ lc.r = np ∧ lc.c = np)
+    (hconv : ∀ iso lc ne ops gates, iso ∈ P.isoAdjs → lc ∈ P.lcGraphs iso → P.conv lc iso = some gates →
+      Alt.Generates ne np ops lc.f → Alt.Generates ne np (ops ++ gates) iso.f)
+    (hmap : ∀ iso, iso ∈ P.isoAdjs → ∀ a b, a < np → b < np → iso.f a b = relabelAdj np target (P.relabelMap iso) a b)
+    (hpick : ∀ keys : List (List Bool), ∀ s, s ∈ Alt.setList keys → pick s ∈ s)
+    (h : Alt.solve P pick = .ok out) :
+    (∀ e, e ∈ out → ∀ script : List Bool, script.length = countMeas e.ops →
+      ∃ s, stabRun e.ne np .prob script e.ops = some s ∧
+        ∀ p, (STab.ofTab s.t).Spn p ↔ (targetSTab np e.ne (relabelAdj np target e.map)).Spn p) ∧
+    out.Pairwise (fun e e' => e.g.flat ≠ e'.g.flat) := by
+  have hsolver : ∀ iso lc ne ops, iso ∈ P.isoAdjs → lc ∈ P.lcGraphs iso → P.solver lc = some (ne, ops) →
+      Alt.Generates ne np ops lc.f := by
+    intro iso lc ne ops h1 h2 hs
+    obtain ⟨s1, s2, _, _⟩ := hsimple iso lc h1 h2
+    obtain ⟨ne', ops', e1, e2⟩ := hsol np lc.f s1 s2
+    rw [huse lc, e1] at hs
+    injection hs with hs
+    injection hs with a b
+    subst a b
+    exact Alt.generates_of_check _ _ _ _ e2
+  obtain ⟨r1, r2, _⟩ := solve_result_correct P pick np target out hsolver hconv
+    (fun iso lc h1 h2 => (hsimple iso lc h1 h2).2.2) hmap hpick h
+  exact ⟨r1, r2⟩
+
+/-! ### Non-vacuity of `solve_result_correct`: one relabelled target (the path 0–1–2 itself), one LC graph, the known circuit -/
+def pathB : BMat := (BMat.ofAdj 3 C02.lin3adj)
+def demoParts : Alt.Parts :=
+  { isoAdjs := [pathB], lcGraphs := fun _ => [pathB, pathB], relabelMap := fun _ => [0, 1, 2],
+    solver := fun _ => some (1, C02.lin3ops), conv := fun _ _ => some [] }
+set_option maxRecDepth 100000 in
+example : Alt.Generates 1 3 C02.lin3ops pathB.f :=
+  Alt.generates_of_check 1 3 C02.lin3ops C02.lin3adj (by decide +kernel)
+/-- the two identical entries are reduced to one -/
+example : (match Alt.solve demoParts (fun s => s.headD 0) with | .ok out => out.length | .error _ => 0) = 1 := by
+  decide +kernel
+example : ∀ a b, a < 3 → b < 3 → pathB.f a b = relabelAdj 3 C02.lin3adj [0, 1, 2] a b := by
+  intro a b ha hb
+  have h1 : a = 0 ∨ a = 1 ∨ a = 2 := by omega
+  have h2 : b = 0 ∨ b = 1 ∨ b = 2 := by omega
+  rcases h1 with rfl | rfl | rfl <;> rcases h2 with rfl | rfl | rfl <;> decide
 
 /-! ### Non-vacuity: renaming the path 0–1–2 by the permutation [2, 0, 1] gives the path 2–0–1 -/
 def path3 : Nat → Nat → Bool := fun i j => (i == 0 && j == 1) || (i == 1 && j == 0) || (i == 1 && j == 2) || (i == 2 && j == 1)
